@@ -2,15 +2,16 @@
 on the real ASTs.
 
 check_code(code, lambda_) — induction step for a node with ANY primitive and ANY number of arguments:
-    the node's primitive ranges over {SELF, CREATE_CONTRACT, SET_DELEGATE, TRANSFER_TOKENS, LAMBDA, LAMBDA_REC, PUSH,
-    lambda (the type), any other}; its arguments are a ghost sequence of symbolic length whose elements obey the
+    the node's primitive is ANY name (an unconstrained integer; names are interned on demand, so a comparison of the code
+    with any string whatsoever is seen) or None (sequence / literal node); its arguments are a ghost sequence of symbolic length whose elements obey the
     induction hypothesis (recursive calls use the contract:  check_code(c, l) raises  <=>  F(c, l)  with F uninterpreted);
     loop invariant: no argument before the current index is forbidden.
     obligation:  raises  <=>  prim == SELF  or  (prim restricted and not lambda_)  or  exists i. F(arg_i, lambda_ or opener(prim))
     which is the defining recursion of views.forbidden: SELF anywhere; TRANSFER_TOKENS / CREATE_CONTRACT / SET_DELEGATE
     outside LAMBDA, LAMBDA_REC bodies and pushed (PUSH) lambda literals.
 create_type name clause — the name is a z3 String, `re.fullmatch` is translated to a z3 regular expression:
-    raises  <=>  len(name) > 31  or  some character is outside [A-Za-z0-9_.%@]      (check_code stubbed).
+    raises  <=>  len(name) > 31  or  some character is outside [A-Za-z0-9_.%@]  or  check_code(args[3], lambda_=False) raises
+    (check_code by a recorder with a symbolic verdict: it must be consulted exactly once, on the code argument, outside a lambda).
 """
 import ast, re
 import sre_parse
@@ -18,7 +19,19 @@ import z3
 from vlib.pyvc import Engine, RaiseEx, Sym, Obj, Z, ZB, Unsupported
 from vlib.pyvc.report import report, run_harness, functions_interpreted
 
-ALPH = ['SELF', 'CREATE_CONTRACT', 'SET_DELEGATE', 'TRANSFER_TOKENS', 'LAMBDA', 'LAMBDA_REC', 'PUSH', 'lambda', 'DROP']
+# Primitive names are INTERNED on demand: the node's primitive is an unconstrained integer, every string the code (or the
+# specification) compares it with gets its own integer the first time it is seen, and a primitive equal to none of them is
+# "some other primitive".  (Before the audit of over-specific inputs the primitive ranged over a fixed list of 9 names read
+# off the code under test, so a comparison with any OTHER name - SELF_ADDRESS, EMIT, IF_CONS ... - was invisible.)
+ALPH = ['SELF', 'CREATE_CONTRACT', 'SET_DELEGATE', 'TRANSFER_TOKENS', 'LAMBDA', 'LAMBDA_REC', 'PUSH']
+
+
+def intern(name):
+    if name not in ALPH:
+        ALPH.append(name)
+    return ALPH.index(name)
+
+
 RESTRICTED = ('CREATE_CONTRACT', 'SET_DELEGATE', 'TRANSFER_TOKENS')
 OPENERS = ('LAMBDA', 'LAMBDA_REC', 'PUSH')
 NodeS = z3.DeclareSort('Node')
@@ -35,8 +48,10 @@ class GPrim:
 
     def __pyvc_cmp__(self, eng, op, other, refl):
         if isinstance(other, str) and isinstance(op, (ast.Eq, ast.NotEq)):
-            f = (self.idx == ALPH.index(other)) if other in ALPH else z3.BoolVal(False)
+            f = self.idx == intern(other)
             return Sym(f if isinstance(op, ast.Eq) else z3.Not(f))
+        if other is None and isinstance(op, (ast.Eq, ast.NotEq)):
+            return isinstance(op, ast.NotEq)          # a named primitive is not None
         return NotImplemented
 
 
@@ -64,6 +79,8 @@ class GCode:
         if name == 'prim':
             if self.prim_idx is None:
                 raise Unsupported('prim of a child node (children are abstract: only the contract may be used)')
+            if isinstance(self.prim_idx, str):
+                return None                   # sequences and literals: Micheline.prim is None
             return GPrim(self.prim_idx)
         if name == 'args':
             return GArgs(self.node, self.nargs)
@@ -76,7 +93,8 @@ def h_check_code():
 
     def h(e: Engine):
         node = z3.Const('node', NodeS)
-        p = e.int('prim', lo=0, hi=len(ALPH) - 1).e
+        p = e.int('prim').e                    # ANY primitive name (interned, see above)
+        prim_is_none = e.fork(e.bool('node_is_a_sequence_or_literal(prim is None)').e)
         n = e.int('n_args', lo=0).e
         lam = e.bool('lambda_')
 
@@ -88,7 +106,7 @@ def h_check_code():
                 raise RaiseEx(MichelsonRuntimeError('view', 'not allowed in views'))
             return None
         e.contract_for(ViewSection.__dict__['check_code'].__func__, contract, inline_depth=1)
-        is_ = lambda name: p == ALPH.index(name)   # noqa
+        is_ = (lambda name: z3.BoolVal(False)) if prim_is_none else (lambda name: p == intern(name))   # noqa
         opener = z3.Or(*[is_(x) for x in OPENERS])
         inner = z3.Or(lam.e, opener)
 
@@ -101,7 +119,7 @@ def h_check_code():
         j = z3.Int('j!s')
         some_child = z3.Exists([j], z3.And(j >= 0, j < n, F(ARG(node, j), inner)))
         try:
-            e.call(ViewSection.check_code, [GCode(node, p, n), lam])
+            e.call(ViewSection.check_code, [GCode(node, 'none' if prim_is_none else p, n), lam])
         except RaiseEx as ex:
             e.check('check_code::raises.only_if(forbidden(code, lambda_))', z3.Or(own, some_child))
             e.check('check_code::raises.MichelsonRuntimeError', z3.BoolVal(isinstance(ex.exc, MichelsonRuntimeError)))
@@ -206,16 +224,38 @@ def h_name():
                 raise Unsupported('re.fullmatch arguments')
             return Sym(z3.InRe(name.s, regex_to_z3(pat)))      # truthiness of the match object
         e.stub(re.fullmatch, fullmatch)
-        e.stub(ViewSection.__dict__['check_code'].__func__, lambda eng, a, k: None)
+        # check_code by a recorder with a symbolic verdict (before: a stub that always accepted, so the name clause was only ever
+        # seen next to acceptable code, and nothing demanded that the code argument is handed to check_code at all)
+        code_obj = 'code'
+        forb = z3.Bool('code_is_forbidden')
+        calls = []
+
+        def cc(eng, a, k):
+            calls.append((list(a), dict(k)))
+            if eng.fork(forb):
+                raise RaiseEx(MichelsonRuntimeError('view', 'X is not allowed in views'))
+            return None
+        e.stub(ViewSection.__dict__['check_code'].__func__, cc)
         ok_chars = z3.Star(z3.Union(z3.Range('a', 'z'), z3.Range('A', 'Z'), z3.Range('0', '9'), z3.Re('_'), z3.Re('.'), z3.Re('%'), z3.Re('@')))
         spec_reject = z3.Or(z3.Length(s) > 31, z3.Not(z3.InRe(s, ok_chars)))
+
+        def called_right():
+            if len(calls) != 1:
+                return False
+            a, k = calls[0]
+            lam = a[1] if len(a) > 1 else k.get('lambda_', '<missing>')
+            return len(a) >= 1 and a[0] is code_obj and lam is False
         try:
-            e.call(e.unwrap(ViewSection.__dict__['create_type'].__func__), [ViewSection, [GLiteralCls(s), UnitType, UnitType, 'code']])
+            e.call(e.unwrap(ViewSection.__dict__['create_type'].__func__), [ViewSection, [GLiteralCls(s), UnitType, UnitType, code_obj]])
         except RaiseEx as ex:
-            e.check('create_type::raises.only_if(name longer than 31 or forbidden character)', spec_reject)
+            e.check('create_type::raises.only_if(name longer than 31 or forbidden character)', z3.Or(spec_reject, forb))
+            e.check('create_type::raises.only_if(name invalid, or check_code(the code argument, lambda_=False) rejected it)',
+                    z3.Or(spec_reject, z3.And(forb, z3.BoolVal(called_right()))))
             e.check('create_type::raises.MichelsonRuntimeError', z3.BoolVal(isinstance(ex.exc, MichelsonRuntimeError)))
             return
         e.check('create_type::returns.only_if(name is at most 31 characters of [A-Za-z0-9_.%@])', z3.Not(spec_reject))
+        e.check('create_type::returns.only_if(check_code(the code argument, lambda_=False) was consulted once and accepted)',
+                z3.And(z3.BoolVal(called_right()), z3.Not(forb)))
     return h
 
 
@@ -235,16 +275,30 @@ def native(case):
 
 
 def search_code():
+    """replay candidates (well-formed instructions only: a CREATE_CONTRACT without its script is rejected by the parser, not
+    by check_code, and would be a bogus witness)"""
+    from props.C32_R import instr, NEAR_LEAVES, CONTAINERS, spec_code_forbidden
     R = lambda p: {'prim': p}                               # noqa
+    I = instr                                               # noqa
     cands = []
     for p in ('SELF',) + RESTRICTED:
-        cands += [([R(p)], True),
-                  ([{'prim': 'LAMBDA', 'args': [R('unit'), R('unit'), [R(p)]]}], p == 'SELF'),
-                  ([{'prim': 'LAMBDA_REC', 'args': [R('unit'), R('unit'), [R(p)]]}], p == 'SELF'),
-                  ([{'prim': 'PUSH', 'args': [{'prim': 'lambda', 'args': [R('unit'), R('unit')]}, [R(p)]]}], p == 'SELF'),
-                  ([{'prim': 'DIP', 'args': [[R(p)]]}], True),
-                  ([{'prim': 'IF', 'args': [[R('UNIT')], [{'prim': 'DIP', 'args': [[R('UNIT'), R(p)]]}]]}], True),
-                  ([{'prim': 'LAMBDA', 'args': [R('unit'), R('unit'), [{'prim': 'DIP', 'args': [[R(p)]]}]]}, R('UNIT')], p == 'SELF')]
+        cands += [([I(p)], True),
+                  ([{'prim': 'LAMBDA', 'args': [R('unit'), R('unit'), [I(p)]]}], p == 'SELF'),
+                  ([{'prim': 'LAMBDA_REC', 'args': [R('unit'), R('unit'), [I(p)]]}], p == 'SELF'),
+                  ([{'prim': 'PUSH', 'args': [{'prim': 'lambda', 'args': [R('unit'), R('unit')]}, [I(p)]]}], p == 'SELF'),
+                  ([{'prim': 'DIP', 'args': [[I(p)]]}], True),
+                  ([{'prim': 'IF', 'args': [[R('UNIT')], [{'prim': 'DIP', 'args': [[R('UNIT'), I(p)]]}]]}], True),
+                  ([{'prim': 'LAMBDA', 'args': [R('unit'), R('unit'), [{'prim': 'DIP', 'args': [[I(p)]]}]]}, R('UNIT')], p == 'SELF')]
+    # allowed instructions close to the forbidden ones, and a restricted instruction under every non-lambda container
+    for leaf in NEAR_LEAVES + ('DROP',):
+        for code in ([I(leaf)], [{'prim': 'LAMBDA', 'args': [R('unit'), R('unit'), [I(leaf)]]}]):
+            cands.append((code, bool(spec_code_forbidden(code))))
+    for name, (is_lambda, mk) in CONTAINERS.items():
+        if name == 'PUSH-Lambda_rec':      # the unregistered Lambda_rec data primitive is a recorded known finding, not a witness here
+            continue
+        for leaf in ('TRANSFER_TOKENS', 'SELF'):
+            code = [mk([I(leaf)])] if name != 'block' else [mk([I(leaf)])]
+            cands.append((code, bool(spec_code_forbidden(code))))
     for code, want in cands:
         c = dict(code=code, want_reject=want)
         try:
@@ -264,7 +318,7 @@ def run_P(ck):
     ck.function(ViewSection.check_code)
     ck.function(ViewSection.create_type)
     ck.assume('code trees are finite: structural induction with the recursive call replaced by the contract (F uninterpreted); '
-              'node primitives partitioned into the 8 named ones and "any other"')
+              'the node primitive is ANY name (an unconstrained integer with names interned on demand) or None (sequence / literal)')
     ck.assume('re.fullmatch translated to a z3 regular expression (literal/class/repeat subset of sre); type(...) and check_code stubbed in the name clause')
     ck.trust('PyVC encoding of the Python subset (DESIGN.md 3.2)')
     ck.trust('z3 5.1 (sequence/regex theory, quantifier instantiation)')
